@@ -321,8 +321,10 @@ theorem takePrefix_NP : ∀ rest, Segs rest → ∀ pre fuel n out, rest.length 
     | 0 => omega
     | fuel + 1 =>
       unfold takePrefix
+      have hlt : pre.length < (pre ++ t :: c :: (as ++ rest)).length := by simp
+      simp only [hlt, if_true, rd8_append_at, Out.bind_ok]
       split
-      · simp only [rd8_append_at, rd8_append_at1, Out.bind_ok]
+      · simp only [rd8_append_at1, Out.bind_ok]
         have e : pre ++ t :: c :: (as ++ rest) = (pre ++ t :: c :: as) ++ rest := by simp
         have el : pre.length + 2 + c * 4 = (pre ++ t :: c :: as).length := by simp; omega
         have hlen : (pre ++ t :: c :: (as ++ rest)).length = pre.length + 2 + c * 4 + rest.length := by
@@ -457,16 +459,16 @@ theorem reconcileAgg_spec {as4Agg : Option Attr} {attrs : List Attr} (h : AttrsO
     obtain ⟨d, hd⟩ := hsl
     simp only [aggregatorAsn, binaryUnwrap, hb, hb4, hd, Out.bind_ok]
     split
-    · have hm : (mapFirst 7 (fun _ => Out.ok (⟨7, 0xc0, .bin b4⟩ : Attr)) attrs).NP :=
+    · have hm : (mapFirst 7 (fun agg => Out.ok (⟨agg.code, agg.flags, .bin b4⟩ : Attr)) attrs).NP :=
         mapFirst_NP _ _ _ (fun _ _ _ => by simp)
-      cases hmf : mapFirst 7 (fun _ => Out.ok (⟨7, 0xc0, .bin b4⟩ : Attr)) attrs with
+      cases hmf : mapFirst 7 (fun agg => Out.ok (⟨agg.code, agg.flags, .bin b4⟩ : Attr)) attrs with
       | ok l' =>
         simp only [Out.bind_ok]
         refine ⟨by simp, fun r hr a ha hc => ?_⟩
         injection hr with hr; subst hr
-        rcases mapFirst_mem _ _ _ _ hmf a ha with h1 | ⟨x, _, _, hfx⟩
+        rcases mapFirst_mem _ _ _ _ hmf a ha with h1 | ⟨x, _, hx7, hfx⟩
         · exact h a h1
-        · injection hfx with hfx; subst hfx; simp at hc
+        · injection hfx with hfx; subst hfx; simp only at hc; omega
       | err e => simp
       | panic => simp [hmf] at hm
     · refine ⟨by simp, fun r hr a ha _ => ?_⟩
@@ -805,7 +807,11 @@ theorem parseMpReach_NP {dec : HypDec} (hd : dec.NP) (c : Codec) (b : Bytes) : (
             · simp only [Out.NP_bind, slice_NP]
               refine ⟨⟨?_, by omega⟩, fun _ _ => by simp⟩
               rename_i h12; omega
-            · simp
+            · split
+              · rename_i h48
+                simp only [Out.NP_bind, slice_NP]
+                exact ⟨⟨by omega, by omega⟩, fun _ _ => ⟨⟨by omega, by omega⟩, fun _ _ => by simp⟩⟩
+              · simp
 
 theorem parseMpUnreach_NP {dec : HypDec} (hd : dec.NP) (c : Codec) (b : Bytes) : (parseMpUnreach dec c b).NP := by
   unfold parseMpUnreach
